@@ -39,7 +39,11 @@ func c16Check(L string, lib *ast.KnowledgeLibrary, kbName string, gone []string,
 }
 
 func c16CheckAgainst(L string, lib *ast.KnowledgeLibrary, kbName string, gone []string, wantA string, f0 *Fact, aloneKB string) {
-	kb, err := lib.NewKnowledgeBaseInstance(kbName, "1")
+	c16CheckVer(L, lib, kbName, "1", gone, wantA, f0, aloneKB)
+}
+
+func c16CheckVer(L string, lib *ast.KnowledgeLibrary, kbName, ver string, gone []string, wantA string, f0 *Fact, aloneKB string) {
+	kb, err := lib.NewKnowledgeBaseInstance(kbName, ver)
 	verif.Assert(L+"knowledge-base-can-be-instantiated", err == nil && kb != nil)
 	if err != nil || kb == nil {
 		return
@@ -83,7 +87,7 @@ func c16CheckAgainst(L string, lib *ast.KnowledgeLibrary, kbName string, gone []
 	// the rule now named A behaves exactly as when built alone (knowledge base X holds it alone)
 	if wantA != "" && lib.GetKnowledgeBase(aloneKB, "1") != nil && len(lib.GetKnowledgeBase(aloneKB, "1").RuleEntries) > 0 {
 		a1, ok1 := c07Run(lib, aloneKB, "A", f0)
-		a2, ok2 := c07Run(lib, kbName, "A", f0)
+		a2, ok2 := c07RunVer(lib, kbName, ver, "A", f0)
 		verif.Assert(L+"reused-name-rule-can-be-run", ok1 && ok2)
 		if ok1 && ok2 {
 			c07Same(L+"reused-name-behaves-per-its-own-text:", a1, a2)
@@ -106,6 +110,7 @@ var c16Hists = []c16Hist{
 	{"h_dup_same_resource", nil, "v1"},
 	{"h_two_kbs", nil, "v1"},
 	{"h_dup_identical", nil, "v1"},
+	{"h_remove_among_kbs", []string{"v1"}, ""},
 }
 
 func VerifC16History(storeLoad int) {
@@ -120,6 +125,11 @@ func VerifC16History(storeLoad int) {
 			verif.Assert(L+"building-an-existing-name-returns-an-error", len(log) > 1 && log[1] == "build:true")
 		}
 		c16Check(L, lib, "T", h.gone, h.wantA, f0)
+		if h.tmpl == "h_remove_among_kbs" {
+			// removing A from T:1 leaves the A of the knowledge bases that share its name (T:2) or its version (U:1) alone
+			c16CheckVer(L+"same-version-other-name:", lib, "U", "1", nil, "v2", f0, "X2")
+			c16CheckVer(L+"same-name-other-version:", lib, "T", "2", nil, "v3", f0, "X3")
+		}
 		if h.tmpl == "h_two_kbs" {
 			// the second knowledge base of the library is not influenced by the first
 			c16CheckAgainst(L+"other-knowledge-base:", lib, "U", nil, "v2", f0, "X2")
